@@ -1,0 +1,53 @@
+//go:build verif
+
+package cert
+
+import (
+	"crypto/tls"
+	"time"
+)
+
+// Verification hooks (build tag verif): thin exported wrappers around unexported code so that the
+// correspondence harness in /verif can call the real thing in-process. No behaviour is changed.
+
+// VerifAnswer is what getCertificate returned for one requested server name: the position of the returned
+// certificate in the store's certificate slice (-1 for nil) and the error.
+type VerifAnswer struct {
+	Index int
+	Err   error
+}
+
+// VerifSelect builds a Store the way TLSConfig does (NewStore, then SetCertificates unless set is false) and asks
+// the real getCertificate for every server name.
+func VerifSelect(certs []tls.Certificate, set bool, serverNames []string, strict bool) []VerifAnswer {
+	s := NewStore()
+	if set {
+		s.SetCertificates(certs)
+	}
+	out := make([]VerifAnswer, 0, len(serverNames))
+	for _, n := range serverNames {
+		cs := s.certstore()
+		c, err := getCertificate(cs, &tls.ClientHelloInfo{ServerName: n}, strict)
+		idx := -1
+		for i := range cs.Certificates {
+			if c == &cs.Certificates[i] {
+				idx = i
+			}
+		}
+		if c != nil && idx < 0 {
+			idx = -2 // a certificate that is not an element of the stored set
+		}
+		out = append(out, VerifAnswer{Index: idx, Err: err})
+	}
+	return out
+}
+
+// VerifWatch runs the real watch loop.
+func VerifWatch(ch chan []tls.Certificate, refresh time.Duration, path string, loadFn func(path string) (map[string][]byte, error)) {
+	watch(ch, refresh, path, loadFn)
+}
+
+// VerifLoadCertificates exposes loadCertificates.
+func VerifLoadCertificates(pemBlocks map[string][]byte) ([]tls.Certificate, error) {
+	return loadCertificates(pemBlocks)
+}
